@@ -142,6 +142,52 @@ def report(ses, key, what, data):
     finding(ses, 'C12:' + key, what, data, 'rsv.props.c12:replay')
 
 
+def numeric_X(n):
+    return np.array([((7 * k + 3) % 11 - 5) / 4.0 for k in range(n)], dtype=float)
+
+
+def checked_call(ses, label, m, n, X, fn, want, kind, sample, key, what, data):
+    """The query `fn` evaluated TWICE on the same objects with the symbolic solution injected: both results must equal
+    `want` for all values of the solution vector (a query must not change what the next one returns).  If the real code
+    cannot run on symbolic entries (in-place float arithmetic raises), the same two evaluations are made with a concrete
+    solution vector and compared numerically with the oracle; only if the concrete run raises too is the query counted
+    as a (loud) refusal."""
+    try:
+        inject(m, n, X)
+        got1 = fn()
+        got2 = fn()
+    except Exception as e:
+        Xn = numeric_X(n)
+        try:
+            inject(m, n, Xn)
+            g1 = np.array(fn(), dtype=float)
+            g2 = np.array(fn(), dtype=float)
+        except Exception:
+            ses.stats.kinds['raises'] = ses.stats.kinds.get('raises', 0) + 1
+            inject(m, n, X)
+            return
+        finally:
+            pass
+        inject(m, n, X)
+        asg = {'X[%d]' % k: Fraction(float(v)) for k, v in enumerate(Xn)}
+        w = parr(want)
+        wn = np.array([float(p.eval(asg)) for p in w.reshape(-1)]).reshape(w.shape)
+        ses.stats.obligations += 1
+        ses.stats.kinds[kind + '-numeric'] = ses.stats.kinds.get(kind + '-numeric', 0) + 1
+        for tag, g in (('first', g1), ('second', g2)):
+            if g.shape != wn.shape or not np.allclose(g, wn, atol=1e-9):
+                report(ses, key, '%s (%s evaluation, concrete solution vector; symbolic injection raised %s): got %s, expected %s'
+                       % (what, tag, type(e).__name__, np.round(g, 6).tolist(), np.round(wn, 6).tolist()), dict(data, numeric=True))
+                return
+        ses.stats.discharged += 1
+        return
+    for tag, got in (('', got1), ('#2', got2)):
+        bad = decide_equal(ses, label + tag, got, want, kind, sample=sample)
+        if bad:
+            report(ses, key, '%s%s: %s' % (what, ' (second evaluation)' if tag else '', bad[1]), data)
+            return
+
+
 # ------------------------------------------------------------------ (a) variables and slices
 def run_var(case, ses):
     from rsome import ro
@@ -157,12 +203,15 @@ def run_var(case, ses):
     ses.stats.programs += 1
     X = inject(m, f.linear.shape[1])
     want = X[onehot_cols(x.to_affine())]
+    nX = f.linear.shape[1]
     for tag, fn in (('get', lambda: x.get()), ('call', lambda: x())):
         label = 'var%s.%s' % (shape, tag)
-        got = fn()
-        bad = decide_equal(ses, label, got, want, 'variable-readback', sample=dict(shape=list(shape), via=tag))
-        if bad:
-            report(ses, label, 'x%s.%s(): %s' % (shape, tag, bad[1]), dict(k='var', shape=list(shape), idx=None, via=tag))
+        checked_call(ses, label, m, nX, X, fn, want, 'variable-readback', dict(shape=list(shape), via=tag), label,
+                     'x%s.%s()' % (shape, tag), dict(k='var', shape=list(shape), idx=None, via=tag))
+    xa = x.to_affine() + 0.0
+    checked_call(ses, 'var%s.affine-object' % (shape,), m, nX, X, (lambda: xa()), want, 'variable-readback',
+                 dict(shape=list(shape), via='affine object called twice'), 'var%s.affine' % (shape,),
+                 '(x%s + 0)() on one expression object' % (shape,), dict(k='var', shape=list(shape), idx=None, via='affine'))
     for ix in case['idxs']:
         idx = c05.parse_index(ix)
         try:
@@ -172,15 +221,8 @@ def run_var(case, ses):
             continue
         for tag, fn in (('get', lambda: sub.get()), ('call', lambda: sub())):
             label = 'var%s[%s].%s' % (shape, ix, tag)
-            try:
-                got = fn()
-            except Exception as e:
-                ses.stats.kinds['raises'] = ses.stats.kinds.get('raises', 0) + 1
-                continue
-            bad = decide_equal(ses, label, got, wsub, 'slice-readback', sample=dict(shape=list(shape), index=ix, via=tag))
-            if bad:
-                report(ses, 'slice.%s' % tag, 'x%s[%s].%s(): %s' % (shape, ix, tag, bad[1]),
-                       dict(k='var', shape=list(shape), idx=ix, via=tag))
+            checked_call(ses, label, m, nX, X, fn, wsub, 'slice-readback', dict(shape=list(shape), index=ix, via=tag),
+                         'slice.%s' % tag, 'x%s[%s].%s()' % (shape, ix, tag), dict(k='var', shape=list(shape), idx=ix, via=tag))
 
 
 # ------------------------------------------------------------------ (b) expression calls
@@ -218,33 +260,20 @@ def run_call(case, ses):
         for j in range(c05.NZ):
             zvals.setdefault('Z[%d]' % j, Fraction(0))
         label = 'call:' + c05._label(item)
-        try:
-            if isinstance(real, (DecRule, DecRuleSub)):
-                got = real(*assigns)
-            elif isinstance(real, RoAffine):
-                got = real(*assigns)
-            elif isinstance(real, Vars):
-                if real.model.mtype != 'R':
-                    continue
-                got = real()
-            elif isinstance(real, Affine):
-                if real.model.mtype != 'R':
-                    continue
-                got = real()
-            else:
+        if isinstance(real, (DecRule, DecRuleSub, RoAffine)):
+            fn = (lambda: real(*assigns))
+        elif isinstance(real, (Vars, Affine)):
+            if real.model.mtype != 'R':
                 continue
-        except Exception as e:
-            ses.stats.kinds['call-raises'] = ses.stats.kinds.get('call-raises', 0) + 1
-            if len(ses.stats.notes) < 10:
-                ses.stats.notes.append('%s raises %s: %s' % (label, type(e).__name__, str(e)[:80]))
+            fn = (lambda: real())
+        else:
             continue
         want = np.empty(ref.shape, dtype=object)
         for idx in np.ndindex(*ref.shape) if ref.shape != () else [()]:
             want[idx] = ref[idx].subs(zvals)
-        bad = decide_equal(ses, label, got, want, 'expression-call',
-                           sample=dict(template=c05._label(item)[:120], realisations=len(assigns)))
-        if bad:
-            report(ses, label, '%s: __call__ %s' % (c05._label(item), bad[1]), dict(k='call', item=item, seed=case['seed']))
+        checked_call(ses, label, m, nX, ctx.X[:nX], fn, want, 'expression-call',
+                     dict(template=c05._label(item)[:120], realisations=len(assigns)), label,
+                     '%s: __call__' % c05._label(item), dict(k='call', item=item, seed=case['seed']))
 
 
 # ------------------------------------------------------------------ (c) atoms through Convex.__call__
@@ -654,12 +683,17 @@ def replay(data, verbose=False):
         m.solution = sol
         full = np.array(vals[x.first:x.first + x.size]).reshape(shape)
         if data['idx'] is None:
-            got = x.get() if data['via'] == 'get' else x()
+            obj = (x.to_affine() + 0.0) if data['via'] == 'affine' else x
             want = full
         else:
             idx = c05.parse_index(data['idx'])
-            got = x[idx].get() if data['via'] == 'get' else x[idx]()
+            obj = x[idx]
             want = full[idx]
+        q = (lambda: obj.get()) if data['via'] == 'get' else (lambda: obj())
+        first = np.array(q(), dtype=float)
+        got = q()                                   # the second evaluation on the same object
+        if np.shape(first) != np.shape(want) or not np.allclose(first, want):
+            got = first
         if verbose:
             print('x%s[%s].%s() = %s ; expected %s' % (shape, data['idx'], data['via'], np.array(got).tolist(), np.array(want).tolist()))
         return np.shape(got) != np.shape(want) or not np.allclose(got, want)
